@@ -3,3 +3,4 @@ pub mod c12;
 pub mod c14;
 pub mod c04;
 pub mod c05;
+pub mod c17;
